@@ -203,3 +203,88 @@ vector_u32 = dict(
     dropped=['allocator template parameter, rebind', 'reference parameters as pointers', 'the _WIN32 wide-string arm'], trusted=['memcpy (CBMC built-in)'],
     assumes=['harness assume: vector length within the bound'], allow_assume=True, min_obligations=5)
 UNITS.append(vector_u32)
+
+# ------------------------------------------------------------------------------------------ std/Pair.h and std/Optional.h (loop-free: complete)
+PH = 'quill/std/Pair.h'
+OH = 'quill/std/Optional.h'
+NESTED = [(r'Codec<(T1|T2|T|bool)>::compute_encoded_size\(\(\*cache_p\),\s*(.*?)\)\s*;', lambda m: 'CD%s_compute_encoded_size(cache_p, &(%s));' % (TAG[m.group(1)], m.group(2))),
+          (r'Codec<(T1|T2|T)>::encode\(\(\*buffer_p\),\s*\(\*cache_p\),\s*\(\*idx_p\),\s*(.*?)\)\s*;', lambda m: 'CD%s_encode(buffer_p, cache_p, idx_p, &(%s));' % (TAG[m.group(1)], m.group(2))),
+          (r'Codec<bool>::encode\(\(\*buffer_p\),\s*\(\*cache_p\),\s*\(\*idx_p\),\s*(.*?)\)\s*;', r'{ bool const hv_tmp = \1; CDB_encode(buffer_p, cache_p, idx_p, &hv_tmp); }'),
+          (r'Codec<(T1|T2|T|bool)>::decode_arg\(\(\*buffer_p\)\)', lambda m: 'CD%s_decode_arg(buffer_p)' % TAG[m.group(1)])]
+TAG = {'T1': '1', 'T2': '2', 'T': 'E', 'bool': 'B'}
+PRULES = [r_ for r_ in VRULES if 'Codec<' not in r_[0]] + NESTED
+PAIR_PRE = BASE + r'''
+#define BUFSZ 32
+typedef struct PairT { uint32_t first; double second; } PairT;      /* std::pair<uint32_t, double> */
+'''
+pair_funcs = codec_funcs_for('using Arg = uint32_t;', 'CD1_', 'uint32_t') + codec_funcs_for('using Arg = double;', 'CD2_', 'double') + [
+    dict(src=dict(header=PH, cls='Codec', cls_re=r'struct\s+Codec<std::pair<T1,\s*T2>>', name='compute_encoded_size'), cfun='CDP_compute_encoded_size', sig='size_t CDP_compute_encoded_size(IV* cache_p, PairT const* arg_p)', pre_rules=PRULES),
+    dict(src=dict(header=PH, cls='Codec', cls_re=r'struct\s+Codec<std::pair<T1,\s*T2>>', name='encode'), cfun='CDP_encode', sig='void CDP_encode(unsigned char** buffer_p, IV* cache_p, uint32_t* idx_p, PairT const* arg_p)', pre_rules=PRULES),
+    dict(src=dict(header=PH, cls='Codec', cls_re=r'struct\s+Codec<std::pair<T1,\s*T2>>', name='decode_arg'), cfun='CDP_decode_arg', sig='PairT CDP_decode_arg(unsigned char** buffer_p)',
+         pre_rules=[r_ for r_ in PRULES if r_[0] != r'\barg\b'] + [(r'using\s+ReturnType[12]\s*=[^;]*;', ''), (r'std::pair<ReturnType1,\s*ReturnType2>\s+arg\s*;', 'PairT arg;')]),
+    dict(cfun='lem_roundtrip', text=r'''
+uint32_t nondet_u32(void); double nondet_double(void);
+void lem_roundtrip(void)
+__CPROVER_assigns()
+__CPROVER_ensures(1 == 1)
+{
+  static unsigned char buf[BUFSZ];
+  IV cache; cache.n = 0;
+  PairT argv; argv.first = nondet_u32(); argv.second = nondet_double();
+  size_t const size = CDP_compute_encoded_size(&cache, &argv);
+  __CPROVER_assert(size == sizeof(uint32_t) + sizeof(double), "C04: reserved size is the specified encoded size (both members, no padding)");
+  unsigned char* w = buf; uint32_t idx = 0;
+  CDP_encode(&w, &cache, &idx, &argv);
+  __CPROVER_assert((size_t)(w - buf) == size, "C04: bytes written by encode == bytes reserved by the size pass");
+  unsigned char* r = buf;
+  PairT d = CDP_decode_arg(&r);
+  __CPROVER_assert(r == w, "C04: bytes consumed by decode == bytes written by encode");
+  __CPROVER_assert(d.first == argv.first && memcmp(&d.second, &argv.second, sizeof(double)) == 0, "C04: the decoded pair equals the argument, member by member (first stays first)");
+}
+''')]
+pair_u32_double = dict(
+    name='CD.roundtrip[std::pair<uint32_t,double>]', primary='C04', props={'C04'}, kind='L',
+    desc='quill/std/Pair.h Codec<std::pair<uint32_t,double>> over the real bodies, with the real Codec<uint32_t> / Codec<double> bodies for the nested calls (loop-free: complete)',
+    structs=[], prelude=PAIR_PRE, enforce='lem_roundtrip', replace=[], funcs=pair_funcs, harness='  lem_roundtrip();',
+    dropped=['reference parameters as pointers', 'the _WIN32 wide-string arms (not compiled on this platform)', 'std::pair as a two-member struct'], trusted=['memcpy (CBMC built-in)'], min_obligations=5)
+
+OPT_PRE = BASE + r'''
+#define BUFSZ 16
+typedef struct OptT { _Bool has; uint32_t v; } OptT;               /* std::optional<uint32_t> */
+static inline _Bool OPT_has_value(OptT const* o) { return o->has; }
+'''
+ORULES = PRULES + [(r'\*\(\*arg_p\)', 'arg_p->v')]
+opt_funcs = codec_funcs_for('using Arg = bool;', 'CDB_', 'bool') + codec_funcs_for('using Arg = uint32_t;', 'CDE_', 'uint32_t') + [
+    dict(src=dict(header=OH, cls='Codec', cls_re=r'struct\s+Codec<std::optional<T>>', name='compute_encoded_size'), cfun='CDO_compute_encoded_size', sig='size_t CDO_compute_encoded_size(IV* cache_p, OptT const* arg_p)',
+         methods={'has_value': 'OPT_has_value'}, pre_rules=ORULES),
+    dict(src=dict(header=OH, cls='Codec', cls_re=r'struct\s+Codec<std::optional<T>>', name='encode'), cfun='CDO_encode', sig='void CDO_encode(unsigned char** buffer_p, IV* cache_p, uint32_t* idx_p, OptT const* arg_p)',
+         methods={'has_value': 'OPT_has_value'}, pre_rules=ORULES),
+    dict(src=dict(header=OH, cls='Codec', cls_re=r'struct\s+Codec<std::optional<T>>', name='decode_arg'), cfun='CDO_decode_arg', sig='OptT CDO_decode_arg(unsigned char** buffer_p)',
+         pre_rules=[r_ for r_ in PRULES if r_[0] != r'\barg\b'] + [(r'using\s+ReturnType\s*=[^;]*;', ''), (r'std::optional<ReturnType>\s+arg\{std::nullopt\}\s*;', 'OptT arg; arg.has = 0; arg.v = 0;'),
+                                                                    (r'\barg\s*=\s*(CDE_decode_arg\(buffer_p\))\s*;', r'{ arg.v = \1; arg.has = 1; }')]),
+    dict(cfun='lem_roundtrip', text=r'''
+uint32_t nondet_u32(void); _Bool nondet_bool(void);
+void lem_roundtrip(void)
+__CPROVER_assigns()
+__CPROVER_ensures(1 == 1)
+{
+  static unsigned char buf[BUFSZ];
+  IV cache; cache.n = 0;
+  OptT argv; argv.has = nondet_bool(); argv.v = nondet_u32();
+  size_t const size = CDO_compute_encoded_size(&cache, &argv);
+  __CPROVER_assert(size == sizeof(_Bool) + (argv.has ? sizeof(uint32_t) : 0), "C04: reserved size is the specified encoded size (flag, then the value only if present)");
+  unsigned char* w = buf; uint32_t idx = 0;
+  CDO_encode(&w, &cache, &idx, &argv);
+  __CPROVER_assert((size_t)(w - buf) == size, "C04: bytes written by encode == bytes reserved by the size pass");
+  unsigned char* r = buf;
+  OptT d = CDO_decode_arg(&r);
+  __CPROVER_assert(r == w, "C04: bytes consumed by decode == bytes written by encode");
+  __CPROVER_assert((d.has ? 1 : 0) == (argv.has ? 1 : 0) && (argv.has ==> d.v == argv.v), "C04: the decoded optional equals the argument (empty stays empty, a value stays that value)");
+}
+''')]
+optional_u32 = dict(
+    name='CD.roundtrip[std::optional<uint32_t>]', primary='C04', props={'C04'}, kind='L',
+    desc='quill/std/Optional.h Codec<std::optional<uint32_t>> over the real bodies, with the real Codec<bool> / Codec<uint32_t> bodies for the nested calls (loop-free: complete)',
+    structs=[], prelude=OPT_PRE, enforce='lem_roundtrip', replace=[], funcs=opt_funcs, harness='  lem_roundtrip();',
+    dropped=['reference parameters as pointers', 'the _WIN32 wide-string arm (not compiled on this platform)', 'std::optional as {flag, value}: operator*, has_value, assignment'], trusted=['memcpy (CBMC built-in)'], min_obligations=5)
+UNITS += [pair_u32_double, optional_u32]
